@@ -40,6 +40,7 @@ type c12Scn struct {
 	Early   bool       `json:"early"`
 	Esc     string     `json:"esc"`
 	DelayUs int        `json:"delayus"`
+	Long    bool       `json:"long"`
 	Fault   string     `json:"fault,omitempty"` // C11: "" | "werr-on-secret" | "rerr-after-secret"
 }
 
@@ -71,6 +72,15 @@ func c12Device(s *c12Scn) (*simdev.CLI, []*channel.SendInteractiveEvent, []strin
 		t := ""
 		if s.Events[j].Noisy && !s.Early {
 			t = "%LOG-5-ASYNC: link flap\r\n" + cli.Prompts[cli.Mode] + "\r\n"
+		}
+
+		if s.Long && !s.Early {
+			var l strings.Builder
+			for k := 0; k < 45; k++ {
+				fmt.Fprintf(&l, "  -rw-  %6d  file-%d-%03d.cfg\r\n", 1000+k, j+1, k)
+			}
+
+			t = l.String() + t
 		}
 
 		return t + fmt.Sprintf("Confirm step%d? [y/n]: ", j+1)
@@ -117,6 +127,10 @@ func c12Device(s *c12Scn) (*simdev.CLI, []*channel.SendInteractiveEvent, []strin
 		if j < n-1 {
 			ev.ChannelResponse = fmt.Sprintf(`step%d\? \[y/n\]:`, j+1)
 			phrases = append(phrases, fmt.Sprintf("Confirm step%d?", j+1))
+
+			if s.Long && !s.Early {
+				phrases = append(phrases, fmt.Sprintf("file-%d-000.cfg", j+1), fmt.Sprintf("file-%d-044.cfg", j+1))
+			}
 		}
 
 		events = append(events, ev)
@@ -249,6 +263,15 @@ func c12Run(s *c12Scn, pace *json.Encoder, logEnc *json.Encoder, mu *sync.Mutex)
 		}
 	}
 
+	if s.Kind == "command-doubled" {
+		// an unsolicited line that nobody has consumed yet stands in front of the echo; deliveries are spaced out
+		pipe.Inject([]byte("%LINK-3-UPDOWN: Interface x1, changed state\r\n"))
+		pipe.ReadDelay = 180 * time.Microsecond
+		pipe.Lock()
+		pipe.Seg = simdev.Seg{Mode: "one"} // every prefix of the echo is what the client has for a while
+		pipe.Unlock()
+	}
+
 	pipe.WaitDrained(time.Second)
 	time.Sleep(time.Millisecond)
 	pipe.Lock()
@@ -284,6 +307,13 @@ func c12Run(s *c12Scn, pace *json.Encoder, logEnc *json.Encoder, mu *sync.Mutex)
 			}
 		case "interactive-network":
 			r, e := nd.SendInteractive(events, opOpts...)
+			oerr = e
+
+			if r != nil {
+				res = r.Result
+			}
+		case "command-doubled":
+			r, e := gd.SendCommand("show access")
 			oerr = e
 
 			if r != nil {
@@ -358,7 +388,7 @@ func c12Run(s *c12Scn, pace *json.Encoder, logEnc *json.Encoder, mu *sync.Mutex)
 
 		if !isRet {
 			e["echolen"] = e["echolen"].(int) + len(reacts[i])
-			if (s.Kind == "command") && len(reacts[i]) > 0 {
+			if (s.Kind == "command" || s.Kind == "command-doubled") && len(reacts[i]) > 0 {
 				e["mustecho"] = true
 			}
 
